@@ -81,12 +81,59 @@ def check(P: Project, R: Report) -> None:
     R.need(term is not None, "anchor: no StdioClient method terminates the process")
     R.fn(term.fq)
 
+    # a bounded wait factored into a helper of the client: `if await self._wait_for_exit(1.0): return` … kill()
+    wait_helpers = {}
+    for g in meths.values():
+        if g is term or not any(isinstance(c, ast.Call) and call_name(c) == "self.process.wait" for c in walk_local(g.node)):
+            continue
+        if not any(isinstance(c, ast.Call) and call_name(c) == f"self.{g.name}" for c in walk_local(term.node)):
+            continue  # (only helpers of the terminate routine itself)
+        if any(isinstance(c, ast.Call) and call_name(c) in ("self.process.kill", "self.process.terminate") for c in walk_local(g.node)):
+            continue
+        gp = [p_ for p_ in g.positional_params() if p_ != "self"]
+        bexpr = None
+        for w in walk_local(g.node):
+            if isinstance(w, (ast.With, ast.AsyncWith)) and any(isinstance(c, ast.Call) and call_name(c) == "self.process.wait" for c in walk_local(w)):
+                for it in w.items:
+                    c = it.context_expr
+                    if isinstance(c, ast.Call) and call_name(c) in ("anyio.fail_after", "fail_after", "anyio.move_on_after") and c.args:
+                        bexpr = c.args[0]
+        ga, go = run_paths(g.node, fallible=False, mark_handlers=True, exc_after_events=True)
+        on_timeout = lambda st_: any(e.startswith("caught:") and "TimeoutError" in e for e in st_.events) or any(l.endswith(".cancelled_caught") and not l.startswith("not ") for l in st_.lits)
+        rets_ = [(ast.unparse(n_.value) if n_.value is not None else "None", on_timeout(st_)) for st_, n_ in go.ret] + [("None", on_timeout(st_)) for st_ in go.normal]
+        false_on_timeout = bool(rets_) and all((v_ == "False") == t_ for v_, t_ in rets_) and {v_ for v_, _t in rets_} <= {"True", "False"}
+        true_on_timeout = bool(rets_) and all((v_ == "True") == t_ for v_, t_ in rets_) and {v_ for v_, _t in rets_} <= {"True", "False"}
+        escapes = any(t_ not in (CANCEL,) and "TimeoutError" in t_ for _s, t_, _n in go.exc)
+        if bexpr is None or not (false_on_timeout or true_on_timeout or escapes):
+            raise AnalysisError(f"{rel}: {g.qual} waits for the child in a shape this rule cannot summarise (bound {ast.unparse(bexpr) if bexpr is not None else None}, returns {sorted(set(rets_))})")
+        wait_helpers[g.name] = (gp, bexpr, "false" if false_on_timeout else ("true" if true_on_timeout else "raises"))
+
     def lev(call, st, an):
         nm = call_name(call)
         if nm == "self.process.terminate":
             return "terminate"
+        if nm.startswith("self.") and nm[5:] in wait_helpers:
+            gp, bexpr, _how = wait_helpers[nm[5:]]
+            be = bexpr
+            if isinstance(bexpr, ast.Name) and bexpr.id in gp:
+                i_ = gp.index(bexpr.id)
+                be = call.args[i_] if i_ < len(call.args) else (kwarg(call, bexpr.id) or meths[nm[5:]].param_default(bexpr.id))
+            v = None
+            if be is not None:
+                v = try_fold(P, term.module, be)
+                if v is None and isinstance(be, ast.Name):
+                    d_ = term.param_default(be.id) if be.id in term.params() else None
+                    v = try_fold(P, term.module, d_) if d_ is not None else None
+            return f"wait:{v if isinstance(v, (int, float)) else '?'}"
         if nm == "self.process.kill":
             arm = an.handler_stack and any("TimeoutError" in n for n in an.handler_names(an.handler_stack[-1]))
+            # … or after a wait helper said so: `if await self._wait_for_exit(g): return` / `if not await …: kill()`
+            for hn_, (_gp, _b, how_) in wait_helpers.items():
+                for l in st.lits:
+                    if f"self.{hn_}(" in l:
+                        neg = l.startswith("not ")
+                        if (how_ == "false" and neg) or (how_ == "true" and not neg):
+                            arm = True
             # … or the flag form: `with move_on_after(t) as scope: await wait()` … `if scope.cancelled_caught: kill()`
             arm = arm or any(l.endswith(".cancelled_caught") and not l.startswith("not ") for l in st.lits)
             return "kill@" + ("timeout-arm" if arm else "elsewhere")
@@ -228,7 +275,18 @@ def check(P: Project, R: Report) -> None:
     holder = {ast.unparse(s.targets[0]) for g in P.methods(tw.cls).values() for s in walk_local(g.node)
               if isinstance(s, ast.Assign) and len(s.targets) == 1 and isinstance(s.value, ast.Call) and call_name(s.value).split(".")[-1] == "StdioClient"}
     R.need(len(holder) == 1, f"anchor: StdioTransport holds its client in {sorted(holder)}")
-    calls = [c for c in walk_local(tw.node) if isinstance(c, ast.Call) and call_name(c) == f"{next(iter(holder))}.__aexit__"]
+    hold_ = next(iter(holder))
+    lvt = local_values(tw.node)
+
+    def _is_holder(e):
+        if ast.unparse(e) == hold_:
+            return True
+        if isinstance(e, ast.Name):
+            vs = [v for v in lvt.get(e.id, []) if v is not None]
+            return bool(vs) and all(ast.unparse(v) == hold_ for v in vs)
+        return False
+
+    calls = [c for c in walk_local(tw.node) if isinstance(c, ast.Call) and isinstance(c.func, ast.Attribute) and c.func.attr == "__aexit__" and _is_holder(c.func.value)]
     R.ob("R2", "StdioTransport.__aexit__ delegates to the client's shutdown", len(calls) == 1, tw.where, "")
     for wname in ("stdio_client", "stdio_client_with_initialize"):
         w = P.func(A.MOD_STDIO, wname)
